@@ -165,10 +165,12 @@ H("a64_macos_long_jump", variant="a64-macos", modules=["rt", "a64dec", "a64_maco
 # family G: the real allocator retry loop + real entry branch (C11)
 # ---------------------------------------------------------------------------------------------
 ALLOC_FUNCS = ["common::allocate_jit_memory", "common::allocate_jit_memory_unix (the whole retry loop)"]
+RANGE_PANIC = (r"apply_branch_patch", r"out of branch range", ["C11", "C12"], "the allocator accepted a placement that the entry branch cannot encode: the installation panics late with the trampoline still mapped")
 for arch, variant, dec, base_funcs in (("x64", "x64-linux", "x64dec", X64_CORE_FUNCS), ("a64", "a64-linux", "a64dec", A64_FUNCS)):
     for pg, pname in ((4096, "4k"), (16384, "16k"), (65536, "64k")):
         H("%s_alloc_any_%s" % (arch, pname), variant=variant, modules=["rt", dec, "alloc_common", "%s_alloc" % arch],
           covers=["COVER: two placements rejected and given back", "COVER: two mmap failures", "COVER: first placement accepted"],
+          forbidden=[RANGE_PANIC],
           functions=ALLOC_FUNCS + base_funcs,
           symbolic="f anywhere in [4096,2^46); any-kernel: the first two mmap calls each fail or return an arbitrary free page-aligned address anywhere in user space, the third succeeds strictly inside the range; page size %d" % pg,
           bounds="page size %d; at most 3 placement attempts (assumption: the third is within reach); unwind %d with unwinding assertions (the solver proves the loop stops)" % (pg, 26 if arch == "x64" else 34),
@@ -180,6 +182,7 @@ for arch, variant, dec, base_funcs in (("x64", "x64-linux", "x64dec", X64_CORE_F
                   "COVER: the free page is the last page of the window", "COVER: far fallbacks were rejected and given back before the free page was found",
                   "COVER: target below 128 MiB (window clipped at zero)"],
           expected=[(r"allocate_jit_memory_unix", r"Failed to allocate JIT memory|ARCH")], must_reach=[0],
+          forbidden=[RANGE_PANIC],
           functions=ALLOC_FUNCS + base_funcs,
           symbolic="f anywhere (incl. below 128 MiB); layout of the +-128 MiB neighbourhood: empty / full / exactly one free page at a symbolic offset (both extremes included); kernel fallback for a taken hint: failure or a far-away page",
           bounds="page size scaled to 2^%d so that the WHOLE window (%d hints) is inside the unwinding bound %d; the claim for 4 KiB pages over the full window rests on the loop being parametric in the page size and is outside the bound" % (pgbits, (1 << (28 - pgbits)) + 1, unw),
@@ -418,7 +421,7 @@ PROPERTIES = {
         seed_rotation=['panic_at_p0', 'panic_at_p4', 'normal_exit_p5', 'panic_at_p1'],
         level_text="Thread interleavings of std::sync::Mutex cannot be encoded (Kani has no concurrency; the futex path is FFI). What the solver decides on the real code is the lock discipline from which exclusion follows: (G1) from the return of InjectorPP::new()/prevent() until the value is dropped the process-wide lock is held, on every path through a symbolic history; (G2) every simulated code write, including every restoring write during drop, happens while the lock is held (the lock is released strictly after the last restore); (G3) after drop - normal, or while panicking with the mutex left poisoned - the lock is free and both new() and prevent() succeed again.",
         level_note="Trusted: std::sync::Mutex gives mutual exclusion and wakes a waiter on unlock. With G1-G3 this yields 'at most one holder', 'a preventer's holder sees only original code' (no write can happen without the lock) and hand-over. Schedules themselves are NOT explored: a change that replaces, skips, re-orders or shortens the locking is detected; a data race inside a hand-written lock would not be.",
-        quick=["x64_api_hist_l1", "arm_api_same2", "after_panic_usable", "panic_at_p2"],
+        quick=["x64_api_hist_l1", "arm_api_same2", "after_panic_usable", "panic_at_p2", "verification_panic_comes_after_restore"],
         thorough=["x64_api_hist_l1", "x64_api_hist_l2", "x64_api_hist_l1x2", "arm_api_same2", "arm_api_same3", "after_panic_usable", "panic_at_p0", "panic_at_p2", "panic_at_p4", "normal_exit_p5"],
         outside=["thread schedules (trusted: std Mutex)", "fairness / liveness of hand-over beyond 'the lock is free and can be taken'"],
     ),
@@ -436,8 +439,8 @@ PROPERTIES = {
     "C06": dict(
         level_text="Inductive step instead of call histories: for EVERY arm of fake! that has `times` (arms are read from the current macros.rs), one call from an arbitrary counter state c with an arbitrary budget N (all usize values): condition false -> the call does not return, has no side effect, and the condition was evaluated while the counter still read c; condition true and c >= N -> does not return, no side effect; condition true and c < N -> returns and the counter is exactly c+1. Scope exit: CallCountVerifier::drop panics iff not already unwinding and count != N, for all pairs. By induction over calls this is 'exactly N admitted' with no bound on N or k.",
         level_note="Concurrency clause: the solver cannot tell fetch_add from load+store sequentially; a separate premise (not a solver step) inspects the nightly MIR of every generated fake body and requires exactly one access to FAKE_COUNTER, an atomic fetch_add. Whether a rejected call that panics afterwards bumped the counter is unobservable without unwinding. The panic message text ('naming both numbers') is a native premise.",
-        quick=["verifier_quiet", "verifier_loud"] + ARM_HARNESSES,
-        thorough=["verifier_quiet", "verifier_loud"] + ARM_HARNESSES,
+        quick=["verifier_quiet", "verifier_loud", "verification_panic_comes_after_restore"] + ARM_HARNESSES,
+        thorough=["verifier_quiet", "verifier_loud", "verification_panic_comes_after_restore", "count_restarts_per_installation"] + ARM_HARNESSES,
         premises=["premise_c08_compile", "premise_counter_is_single_rmw", "premise_verifier_message"],
         outside=["thread interleavings of the counter (premise: single atomic RMW)", "unwinding after a rejected call"],
     ),
@@ -480,7 +483,7 @@ PROPERTIES = {
         seed_rotation=['x64_alloc_any_16k', 'x64_alloc_any_64k', 'a64_alloc_layout_16m', 'a64_alloc_any_16k', 'win_alloc_layout_256m'],
         level_text="The real retry loop of allocate_jit_memory_unix runs together with the real entry-branch writer: (11a) any-kernel with real page sizes 4K/16K/64K where each of the first placements fails or lands anywhere; (11b) layout-kernel with the page scaled to 16 MiB / 8 MiB so that the whole +-128 MiB window, its clipping at zero, the inclusive upper bound, both extreme offsets and the exhaustion panic are inside the unwinding bound. Decided: an accepted placement is one the written branch actually reaches (by decoding the entry), every rejected placement is unmapped with its own address/length before the next attempt, nothing else is unmapped, the function is neither written nor re-protected before acceptance, a full neighbourhood ends in the panic and never in a return. x86-64 and AArch64 Linux.",
         level_note="The full window at 4 KiB pages (65 537 iterations) is outside the bound; it rests on the loop arithmetic being parametric in the page size. The state at the exhaustion panic itself is observed through the invariants asserted at every mmap call (Kani cannot run code after a panic).",
-        quick=["x64_alloc_any_4k", "x64_alloc_layout_16m", "a64_alloc_any_4k", "a64_core_refusal"],
+        quick=["x64_alloc_any_4k", "x64_alloc_layout_16m", "a64_alloc_any_4k", "a64_alloc_layout_16m", "a64_core_refusal"],
         thorough=["x64_alloc_any_4k", "x64_alloc_any_16k", "x64_alloc_any_64k", "x64_alloc_layout_16m", "x64_alloc_layout_8m",
                   "a64_alloc_any_4k", "a64_alloc_any_16k", "a64_alloc_any_64k", "a64_alloc_layout_16m", "a64_alloc_layout_8m", "a64_core_refusal", "win_alloc_layout_256m"],
         timeout_min={"quick": 30, "thorough": 180},
